@@ -1019,8 +1019,11 @@ impl<'a> Sim<'a> {
                 // a position worth the remaining amount to within 1e-9 may legitimately go either way
                 let boundary = close(pos_value, remaining, 1e-9);
                 if !boundary {
+                    // the queued orders are read from the exchange; on the Json path their quantity crossed
+                    // JSON text, which is not bit-exact for numbers that are not short decimals
+                    let slack = if self.json { held.abs() * 1e-12 } else { 0.0 };
                     rule!(
-                        self.ctx, "C10", "sell-exceeds-position", sig, q.shares <= held,
+                        self.ctx, "C10", "sell-exceeds-position", sig, q.shares <= held + slack,
                         "{what}: liquidation sells {:?} {} but only {:?} are held", q.shares, q.symbol, held
                     );
                 }
